@@ -474,14 +474,14 @@ class DenseArrayRowIterator(object):
         If sparse is True, return result as a CSR matrix.
         Otherwise, return as a dense array.
         """
-        sorted_row_idx = np.array(copy.deepcopy(row_idx))
-        meta_sort = np.argsort(sorted_row_idx)
-        sorted_row_idx = sorted_row_idx[meta_sort]
+        # h5py needs strictly increasing indices: load each distinct
+        # row once and expand to the requested order (rows may repeat)
+        (sorted_row_idx,
+         inverse) = np.unique(
+            np.array(copy.deepcopy(row_idx)), return_inverse=True)
         with self.h5_handler as h5_handle:
             raw = h5_handle[self.data_key][sorted_row_idx, :]
-        output = np.zeros(raw.shape, dtype=raw.dtype)
-        for ii, idx in enumerate(meta_sort):
-            output[idx, :] = raw[ii, :]
+        output = raw[inverse, :]
 
         if not sparse:
             return output
